@@ -211,15 +211,25 @@ def run_case(case, ctx):
                 _try(lambda: x(vals[0]) if how == 'call' else x.set_val(vals[0]))
         elif c == 'resize':
             fd = G.core_format(rng)
-            if rng.random() < 0.5:
+            q = rng.random()
+            if q < 0.35:
                 _try(lambda: x.resize(fd[0], fd[1], fd[2]))
-            elif rng.random() < 0.5:
+            elif q < 0.55:
                 _try(lambda: x.resize(dtype=R.dtype_fxp(*fd)))
-            else:
+            elif q < 0.7:
                 _try(lambda: x.resize(n_word=fd[1]))
+            elif q < 0.8:
+                _try(lambda: x.resize(signed=not x.signed))          # one size at a time
+            elif q < 0.9:
+                _try(lambda: x.resize(n_frac=fd[2]))
+            else:
+                _try(lambda: x.resize(fd[0], n_frac=fd[2], n_int=max(0, fd[1] - fd[2] - (1 if fd[0] else 0))))
         elif c == 'like':
             keep(_try(lambda: x.like(y)))
             keep(_try(lambda: Fxp(x, like=y)))
+            if rng.random() < 0.5:
+                keep(_try(lambda: Fxp(x.get_val(), like=y, signed=not y.signed)))
+                keep(_try(lambda: Fxp(None, like=y, n_word=min(52, y.n_word + 3))))
         elif c == 'arith':
             if not compat(x, y):
                 continue
